@@ -246,6 +246,9 @@ def any_desc(al, cfg):
     return {"k": "alt", "alts": alts, "bits": [al.bit("any-kind%d" % j) for j in range(len(alts) - 1)], "type": None}
 
 
+EXTRA_PAYLOADS = ["payload", None, 7, True, ["a", 1], {"k": [1, None]}]  # JSON kinds of the undeclared property's value
+
+
 def build(cfg=None, with_extra=False):
     """returns OrderedDict lemma-id -> DLemma (deterministic order)"""
     cfg = cfg or shapes.Cfg()
